@@ -142,12 +142,16 @@ pub fn run(ctx: &mut Ctx) {
         Default::default(),
         Default::default(),
     );
-    let fault_pct = *ctx.tape.pick(&[0u64, 0, 5, 15]);
+    // "direct" runs apply every operation straight to the table handle (no per-operation
+    // transaction that is dropped on error): a rejected operation must not leave anything
+    // behind by itself. Faults are off in these runs (a half-done operation is legitimate then).
+    let direct = ctx.tape.chance(1, 3);
+    let fault_pct = if direct { 0 } else { *ctx.tape.pick(&[0u64, 0, 5, 15]) };
     // model: insertion order of (height key, block id bytes)
     let mut order: Vec<(u32, [u8; 32])> = Vec::new();
     let mut salt = 0u64;
     let steps = 5 + ctx.tape.below(40);
-    ctx.ev(format!("faults={fault_pct}%"));
+    ctx.ev(format!("faults={fault_pct}% direct={direct}"));
     for _ in 0..steps {
         if ctx.failed() {
             return;
@@ -283,7 +287,14 @@ pub fn run(ctx: &mut Ctx) {
                     tx.commit().map(|_| ()).map_err(|e| e.to_string())
                 }
                 Err(e) => {
-                    drop(tx);
+                    if direct && op <= 3 {
+                        // (single operations only: a batch stops in the middle by design)
+                        // whatever the rejected operation wrote stays, as if it had been
+                        // applied to the table handle itself
+                        let _ = tx.commit();
+                    } else {
+                        drop(tx);
+                    }
                     if !fired {
                         Err(e)
                     } else {
@@ -322,6 +333,18 @@ pub fn run(ctx: &mut Ctx) {
             // a known finding let the run continue: resynchronise the model with what the
             // implementation did is not possible for roots; stop this run
             return;
+        }
+        // ---- the stored blocks are still there, unchanged ----
+        for (k, id) in order.iter() {
+            let got = db
+                .storage_as_ref::<FuelBlocks>()
+                .get(&BlockHeight::from(*k))
+                .map(|b| b.map(|b| block_id_bytes(&b)));
+            // statistic only: the property speaks about the recorded roots, and a rejected
+            // `replace` is known to leave the new value behind in the caller's transaction
+            if !matches!(&got, Ok(Some(g)) if g == id) {
+                ctx.probe("stored_block_differs_after_rejected_op(info)");
+            }
         }
         // ---- roots: every recorded root and the latest root ----
         let leaves: Vec<[u8; 32]> = order.iter().map(|x| x.1).collect();
